@@ -270,6 +270,79 @@ def check_bad_element(n: int, k0: int, k1: int, pos: int, bad: int, src: bool) -
     return h.ok(False)
 
 
+def _with_empty(kinds, pos, shape):
+    # shape: 0 Sequence with Sequence(), 1 Sequence with Sequence(Sequence()),
+    # 2 Source tail with Sequence(), 3 the prefix up to and including the
+    # empty Sequence() regrouped into a nested Sequence
+    els = [make(k, 1) for k in kinds]
+    els.insert(pos, Sequence(Sequence()) if shape == 1 else Sequence())
+    return els
+
+
+def check_empty_nested(n: int, k0: int, k1: int, pos: int, shape: int,
+                       xs: List[int], with_ctx: bool) -> bool:
+    """
+    pre: 0 <= n <= 2
+    pre: 0 <= k0 < B.NK and 0 <= k1 < B.NK
+    pre: 0 <= pos <= n
+    pre: 0 <= shape <= 3
+    pre: len(xs) <= 2
+    pre: B.FREECTX == 1 or k1 == 0 or k1 == 11
+    pre: B.FREECTX == 1 or with_ctx == ((k0 + pos) % 2 == 0)
+    pre: h.in_shard(k0)
+    post: _
+    """
+    # "an empty Sequence is the identity" also when it is one of the elements:
+    # Sequence() (or Sequence(Sequence())) inserted at any position changes
+    # nothing
+    kinds = [k0, k1][:n]
+    with patched_deque():
+        try:
+            ys = mkflow(xs, with_ctx)
+            for k in kinds:
+                ys = alone(make(k, 1), ys)
+            want = ("ok", ys)
+        except (TypeError, lena.core.LenaZeroDivisionError) as e:
+            want = ("raises", type(e).__name__)
+        els = _with_empty(kinds, pos, shape)
+        flow = mkflow(xs, with_ctx)
+        try:
+            if shape <= 1:
+                got = list(Sequence(*els).run(iter(flow)))
+            elif shape == 2:
+                got = list(Source(_Gen(flow), *els)())
+            else:
+                got = list(Sequence(Sequence(*els[:pos + 1]), *els[pos + 1:]).run(iter(flow)))
+            got = ("ok", got)
+        except (TypeError, lena.core.LenaZeroDivisionError) as e:
+            got = ("raises", type(e).__name__)
+    return h.ok(got == want)
+
+
+def check_empty_nested_bad(n: int, k0: int, k1: int, pos: int, shape: int, bad: int) -> bool:
+    """
+    pre: 0 <= n <= 2
+    pre: 0 <= k0 < B.NK and (k1 == 0 or k1 == 11)
+    pre: 0 <= pos <= n
+    pre: 0 <= shape <= 2
+    pre: 0 <= bad <= 7
+    pre: h.in_shard(k0)
+    post: _
+    """
+    # an argument that is not an element is rejected at construction also
+    # right after an empty nested Sequence
+    els = _with_empty([k0, k1][:n], pos, shape)
+    els.insert(pos + 1, BAD[h.concrete(bad, 0, 7)])
+    try:
+        if shape <= 1:
+            Sequence(*els)
+        else:
+            Source(_Gen([1]), *els)
+    except LenaTypeError:
+        return h.ok(True)
+    return h.ok(False)
+
+
 def check_flatten(n: int, k0: int, k1: int, k2: int, shape: int) -> bool:
     """
     pre: 1 <= n <= 3
@@ -294,7 +367,7 @@ def check_flatten(n: int, k0: int, k1: int, k2: int, shape: int) -> bool:
 
 
 CONDITIONS = [
-    dict(fn="check_compose", shards=(48, 96), budget=(80, 1500),
+    dict(fn="check_compose", shards=(48, 96), budget=(160, 1500),
          smoke=["check_compose(2, 1, 7, 0, 0, 1, [1, 2], True)", "check_compose(2, 11, 0, 0, 5, 1, [1, 2], False)",
                 "check_compose(2, 13, 5, 0, 2, 2, [1, 2], True)", "check_compose(0, 0, 0, 0, 4, 1, [4], False)",
                 "check_compose(2, 14, 9, 0, 3, 1, [4, 6], False)"]),
@@ -303,5 +376,10 @@ CONDITIONS = [
                 "check_reuse(2, 0, 6, 3, [1, 2, 3], False)", "check_reuse(1, 9, 0, 2, [1, 2], False)"]),
     dict(fn="check_bad_element", shards=(16, 16), budget=(70, 600),
          smoke=["check_bad_element(2, 0, 7, 1, 1, False)", "check_bad_element(0, 0, 7, 0, 2, True)"]),
+    dict(fn="check_empty_nested", shards=(16, 16), budget=(150, 900),
+         smoke=["check_empty_nested(2, 0, 11, 1, 0, [1, 2], False)", "check_empty_nested(1, 7, 0, 0, 1, [1], False)",
+                "check_empty_nested(0, 0, 0, 0, 3, [3], True)", "check_empty_nested(2, 2, 0, 2, 2, [3, 4], True)"]),
+    dict(fn="check_empty_nested_bad", shards=(16, 16), budget=(60, 600),
+         smoke=["check_empty_nested_bad(1, 0, 0, 0, 0, 0)", "check_empty_nested_bad(2, 7, 11, 2, 2, 6)"]),
     dict(fn="check_flatten", budget=(60, 600), smoke=["check_flatten(3, 0, 11, 3, 1)"]),
 ]
